@@ -113,12 +113,27 @@ func suiteC20Hist(cfg Config, res *Result) {
 		lastPtr := map[string]*pongo2.Template{}
 		mustFetch := map[string]bool{} // cleaned since it was last cached: the next lookup has to go to the loader
 		debug := false
+		inCache := map[string]bool{} // names a non-debug FromCache has stored and no CleanCache has covered since
 		for _, o := range ops {
 			switch o.k {
 			case "G":
 				gets[o.names[0]]++
 				before := len(ml.log)
 				tpl, err := set.FromCache(o.names[0])
+				if tpl == nil && err == nil {
+					res.add(Finding{Kind: "oracle", Proj: "cache", Sig: "c20-neither-template-nor-error", Case: fmt.Sprint(ops), Impl: fmt.Sprintf("%s returned (nil, nil)", o), Model: "a template or an error"})
+				}
+				if cached := inCache[ml.Abs("", o.names[0])]; !cached || debug {
+					// nothing usable is cached under the name: the outcome is decided by the file as it is now
+					body, present := ml.files[ml.Abs("", o.names[0])]
+					fileOK := present && body != "{% if %}"
+					if fileOK != (err == nil && tpl != nil) {
+						res.add(Finding{Kind: "oracle", Proj: "cache", Sig: "c20-lookup-does-not-reflect-the-file", Case: fmt.Sprint(ops), Impl: fmt.Sprintf("%s: template=%v err=%v", o, tpl != nil, err), Model: fmt.Sprintf("file present=%v compiles=%v: a failed load is not remembered", present, fileOK)})
+					}
+					if len(ml.log) == before {
+						res.add(Finding{Kind: "oracle", Proj: "cache", Sig: "c20-miss-without-fetch", Case: fmt.Sprint(ops), Impl: fmt.Sprintf("%s: answered without asking the loader although nothing is cached", o), Model: "one fetch per miss"})
+					}
+				}
 				if !debug && mustFetch[ml.Abs("", o.names[0])] {
 					if len(ml.log) == before {
 						res.add(Finding{Kind: "oracle", Proj: "cache", Sig: "c20-clean-did-not-forget", Case: fmt.Sprint(ops), Impl: fmt.Sprintf("%s: served without asking the loader after CleanCache", o), Model: "a cleaned name is fetched again"})
@@ -142,11 +157,13 @@ func suiteC20Hist(cfg Config, res *Result) {
 					}
 					if !debug {
 						lastPtr[key] = tpl
+						inCache[key] = true
 					}
 				}
 			case "A":
 				set.CleanCache()
 				lastPtr = map[string]*pongo2.Template{}
+				inCache = map[string]bool{}
 				for _, nm := range []string{"a.tpl", "b.tpl", "c.tpl"} {
 					mustFetch[nm] = true
 				}
@@ -154,6 +171,7 @@ func suiteC20Hist(cfg Config, res *Result) {
 				set.CleanCache(o.names...)
 				for _, nm := range o.names {
 					delete(lastPtr, ml.Abs("", nm))
+					delete(inCache, ml.Abs("", nm))
 					mustFetch[ml.Abs("", nm)] = true
 				}
 			case "D":
